@@ -278,7 +278,7 @@ var loopExceptions = []loopException{
 			if fn == nil || fn.FullName() != "math.Nextafter" || len(call.Args) != 2 || types.ExprString(call.Args[0]) != v {
 				return "the body is not v = math.Nextafter(v, …)"
 			}
-			if inf, isI := call.Args[1].(*ast.CallExpr); isI {
+			if inf, isI := resolveSingleDef(info, fd.Body, call.Args[1]).(*ast.CallExpr); isI {
 				if f, _ := typeutil.Callee(info, inf).(*types.Func); f != nil && f.FullName() == "math.Inf" && len(inf.Args) == 1 {
 					if c, ok := constInt(info, inf.Args[0]); ok && c > 0 {
 						return ""
@@ -358,6 +358,10 @@ func (p *Program) stepsClamped(obj types.Object, fd *ast.FuncDecl) string {
 	if pi < 0 {
 		return "the divisor is not a parameter of the function"
 	}
+	return p.stepsClampedAt(sfn, pi, 0)
+}
+
+func (p *Program) stepsClampedAt(sfn *ssa.Function, pi int, depth int) string {
 	var field *types.Var
 	callers := 0
 	for _, fn := range p.RepoSourceFuncs() {
@@ -369,6 +373,17 @@ func (p *Program) stepsClamped(obj types.Object, fd *ast.FuncDecl) string {
 				}
 				callers++
 				arg := call.Common().Args[pi]
+				// a caller that hands on its own parameter: the question moves to that caller's callers
+				if prm, isP := arg.(*ssa.Parameter); isP && depth < 3 {
+					for k, q := range fn.Params {
+						if q == prm {
+							if msg := p.stepsClampedAt(fn, k, depth+1); msg != "" {
+								return msg
+							}
+						}
+					}
+					continue
+				}
 				ld, ok := arg.(*ssa.UnOp)
 				if !ok || ld.Op != token.MUL {
 					return "a caller passes something other than a stored field as the step count (" + p.Pos(in.Pos()) + ")"
@@ -385,8 +400,11 @@ func (p *Program) stepsClamped(obj types.Object, fd *ast.FuncDecl) string {
 			}
 		}
 	}
-	if callers == 0 || field == nil {
+	if callers == 0 {
 		return "no caller found"
+	}
+	if field == nil {
+		return "" // every caller handed on its own parameter, and those were checked recursively
 	}
 	stores := 0
 	for _, fn := range p.RepoSourceFuncs() {
@@ -473,9 +491,9 @@ func (p *Program) ruleLoops(c *Check, ea *effAnalysis) {
 				// audited exceptions first
 				for _, ex := range loopExceptions {
 					// the nudge loop is recognised by its shape wherever it lives (e.g. after extraction into a helper)
-					if ex.fn == "geometry.Segment.Raycast" && ex.fn != fname && !isCounted(loop, info) && loop.Cond != nil {
+					if (ex.fn == "geometry.Segment.Raycast" || ex.fn == "geojson.makeCircleObject") && ex.fn != fname && !isCounted(loop, info) && loop.Cond != nil {
 						if msg := ex.guard(p, fnode.fd, loop, info); msg == "" {
-							c.OK("E4.T1", con, pos, "nudge loop (shape guard holds): "+ex.why)
+							c.OK("E4.T1", con, pos, "audited loop shape recognised outside its original function (shape guard holds): "+ex.why)
 							return true
 						}
 					}
@@ -559,17 +577,31 @@ func isCounted(loop *ast.ForStmt, info *types.Info) bool {
 }
 
 func countedLoop(loop *ast.ForStmt, info *types.Info) (*loopCtx, bool, string) {
-	cond, ok := ast.Unparen(loop.Cond).(*ast.BinaryExpr)
-	if !ok {
-		return nil, false, "the condition is not a comparison"
-	}
-	// conjunctions: use the first conjunct that compares an integer variable
-	for cond.Op == token.LAND {
-		if l, ok := ast.Unparen(cond.X).(*ast.BinaryExpr); ok {
-			cond = l
-		} else {
-			return nil, false, "the condition is not a comparison"
+	// conjunctions: any conjunct that is a comparison bounds the loop (the others can only end it earlier)
+	var conjuncts []ast.Expr
+	var flat func(e ast.Expr)
+	flat = func(e ast.Expr) {
+		if be, ok := ast.Unparen(e).(*ast.BinaryExpr); ok && be.Op == token.LAND {
+			flat(be.X)
+			flat(be.Y)
+			return
 		}
+		conjuncts = append(conjuncts, ast.Unparen(e))
+	}
+	flat(loop.Cond)
+	var cond *ast.BinaryExpr
+	for _, cj := range conjuncts {
+		if be, ok := cj.(*ast.BinaryExpr); ok {
+			switch be.Op {
+			case token.LSS, token.LEQ, token.GTR, token.GEQ, token.NEQ:
+				if cond == nil {
+					cond = be
+				}
+			}
+		}
+	}
+	if cond == nil {
+		return nil, false, "the condition is not a comparison"
 	}
 	l, r, op := cond.X, cond.Y, cond.Op
 	if _, isId := ast.Unparen(l).(*ast.Ident); !isId {
